@@ -26,13 +26,14 @@ Record cstate : Type := {
   checkCtx : bool;          (* p.checkCtx *)
   ctxOps : Z;               (* p.ctxOps *)
   clock : Z;                (* ghost *)
-  done_at : option Z        (* ghost *)
+  done_at : option Z;       (* ghost *)
+  ops_at_cancel : Z         (* ghost: p.ctxOps when the script itself cancelled the context (-1: it did not) *)
 }.
 
 Definition with_ops (cs : cstate) (n : Z) : cstate :=
-  {| checkCtx := checkCtx cs; ctxOps := n; clock := clock cs; done_at := done_at cs |}.
+  {| checkCtx := checkCtx cs; ctxOps := n; clock := clock cs; done_at := done_at cs; ops_at_cancel := ops_at_cancel cs |}.
 Definition tick (cs : cstate) : cstate :=
-  {| checkCtx := checkCtx cs; ctxOps := ctxOps cs; clock := clock cs + 1; done_at := done_at cs |}.
+  {| checkCtx := checkCtx cs; ctxOps := ctxOps cs; clock := clock cs + 1; done_at := done_at cs; ops_at_cancel := ops_at_cancel cs |}.
 
 (* checkContextNow: select { case <-p.ctxDone: return p.ctx.Err(); default: return nil } *)
 Definition closed (cs : cstate) : bool :=
@@ -53,9 +54,9 @@ Definition ctx_now (cs : cstate) : bool := checkCtx cs && closed cs.
 
 (* ExecuteContext: checkCtx = (ctx != Background && ctx != TODO); ctxOps = 0.  Execute: checkCtx = false. *)
 Definition cs_execute_context (cancellable : bool) (done : option Z) : cstate :=
-  {| checkCtx := cancellable; ctxOps := 0; clock := 0; done_at := done |}.
+  {| checkCtx := cancellable; ctxOps := 0; clock := 0; done_at := done; ops_at_cancel := -1 |}.
 Definition cs_execute (stale_ops : Z) : cstate :=
-  {| checkCtx := false; ctxOps := stale_ops; clock := 0; done_at := None |}.
+  {| checkCtx := false; ctxOps := stale_ops; clock := 0; done_at := None; ops_at_cancel := -1 |}.
 
 Section Cancel.
   Variables value St err : Type.
@@ -75,7 +76,8 @@ Section Cancel.
     match done_at cs with
     | Some _ => cs
     | None => if cancel_req (ms m)
-              then {| checkCtx := checkCtx cs; ctxOps := ctxOps cs; clock := clock cs; done_at := Some (clock cs) |}
+              then {| checkCtx := checkCtx cs; ctxOps := ctxOps cs; clock := clock cs; done_at := Some (clock cs);
+                      ops_at_cancel := ctxOps cs |}
               else cs
     end.
 
